@@ -551,17 +551,31 @@ theorem fail_line (e : LExpr) (C : List Instr) (K : List Val) (pos k : Nat) (stk
 /-! ## statements and programs -/
 
 def FailSpecS (fuel : Nat) : Prop :=
-  ∀ (s : LStmt) (C : List Instr) (K : List Val) (pos k : Nat) (stk g : List Val) (L : Nat),
-    codeAt C pos (compileS pos k (eraseS s)) → poolAt K k (constsS (eraseS s)) → failLineS fuel g s = some L →
-    FailsAt C K pos (compileS pos k (eraseS s)) (lineTableS s) ⟨pos, stk, g⟩ L
+  ∀ (s : LStmt) (C : List Instr) (K : List Val) (pos k : Nat) (ctx : List LoopCtx) (stk g : List Val) (L : Nat),
+    codeAt C pos (compileS pos k ctx (eraseS s)) → poolAt K k (constsS (eraseS s)) → failLineS fuel g s = some L →
+    FailsAt C K pos (compileS pos k ctx (eraseS s)) (lineTableS s) ⟨pos, stk, g⟩ L
 
 def FailSpecP (fuel : Nat) : Prop :=
-  ∀ (ss : List LStmt) (C : List Instr) (K : List Val) (pos k : Nat) (stk g : List Val) (L : Nat),
-    codeAt C pos (compileP pos k (eraseP ss)) → poolAt K k (constsP (eraseP ss)) → failLineP fuel g ss = some L →
-    FailsAt C K pos (compileP pos k (eraseP ss)) (lineTableP ss) ⟨pos, stk, g⟩ L
+  ∀ (ss : List LStmt) (C : List Instr) (K : List Val) (pos k : Nat) (ctx : List LoopCtx) (stk g : List Val) (L : Nat),
+    codeAt C pos (compileP pos k ctx (eraseP ss)) → poolAt K k (constsP (eraseP ss)) → failLineP fuel g ss = some L →
+    FailsAt C K pos (compileP pos k ctx (eraseP ss)) (lineTableP ss) ⟨pos, stk, g⟩ L
+
+/-- a block in value position (a branch of an `if` on line `lif`) -/
+def FailSpecV (fuel : Nat) : Prop :=
+  ∀ (ss : List LStmt) (lif : Nat) (C : List Instr) (K : List Val) (pos k : Nat) (ctx : List LoopCtx) (stk g : List Val) (L : Nat),
+    codeAt C pos (branchV pos k ctx (eraseP ss)) → poolAt K k (constsP (eraseP ss)) → failLineP fuel g ss = some L →
+    FailsAt C K pos (branchV pos k ctx (eraseP ss)) (lineTableV lif ss) ⟨pos, stk, g⟩ L
+
+/-- an `if` with statement blocks as an expression -/
+def FailSpecIfV (fuel : Nat) : Prop :=
+  ∀ (ls l : Nat) (c : LExpr) (thn els : List LStmt) (C : List Instr) (K : List Val) (pos k : Nat) (ctx : List LoopCtx) (stk g : List Val) (L : Nat),
+    codeAt C pos (ifV pos k ctx (erase c) (eraseP thn) (eraseP els)) →
+    poolAt K k (consts (erase c) ++ constsP (eraseP thn) ++ constsP (eraseP els)) →
+    failLineS fuel g (.ifS ls l c thn els) = some L →
+    FailsAt C K pos (ifV pos k ctx (erase c) (eraseP thn) (eraseP els)) (lineTableIfV l c thn els) ⟨pos, stk, g⟩ L
 
 theorem failP_succ (fuel : Nat) (hS : FailSpecS fuel) (hP : FailSpecP fuel) : FailSpecP (fuel + 1) := by
-  intro ss C K pos k stk g L h hp hf
+  intro ss C K pos k ctx stk g L h hp hf
   cases ss with
   | nil => simp [failLineP] at hf
   | cons s rest =>
@@ -571,15 +585,154 @@ theorem failP_succ (fuel : Nat) (hS : FailSpecS fuel) (hP : FailSpecP fuel) : Fa
     cases h1 : evalS fuel g (eraseS s) with
     | none =>
       simp only [h1] at hf
-      exact (hS s C K pos k stk g L (codeAt_left h) (poolAt_left hp) hf).left _ _
-    | some g1 =>
-      simp only [h1] at hf
-      have s1 := compileS_correct fuel (eraseS s) C K pos k stk g g1 (codeAt_left h) (poolAt_left hp) h1
-      have f2 := hP rest C K _ _ stk g1 L (codeAt_right h) (poolAt_right hp) hf
-      exact FailsAt.right _ _ (lineTableS_length pos k s) s1 f2
+      exact (hS s C K pos k ctx stk g L (codeAt_left h) (poolAt_left hp) hf).left _ _
+    | some r =>
+      obtain ⟨g1, f1⟩ := r
+      cases f1 with
+      | normal =>
+        simp only [h1] at hf
+        have s1 := compileS_correct fuel (eraseS s) C K pos k ctx stk g g1 .normal (codeAt_left h) (poolAt_left hp) h1
+        have f2 := hP rest C K _ _ ctx stk g1 L (codeAt_right h) (poolAt_right hp) hf
+        exact FailsAt.right _ _ (lineTableS_length pos k ctx s) s1 f2
+      | brk l => simp [h1] at hf
+      | cont l => simp [h1] at hf
 
-theorem failS_succ (fuel : Nat) (hS : FailSpecS fuel) (hP : FailSpecP fuel) : FailSpecS (fuel + 1) := by
-  intro s C K pos k stk g L h hp hf
+theorem failIfV_succ (fuel : Nat) (hV : FailSpecV fuel) : FailSpecIfV (fuel + 1) := by
+  intro ls l c thn els C K pos k ctx stk g L h hp hf
+  simp only [failLineS] at hf
+  simp only [ifV, lineTableIfV] at h ⊢
+  have hlc := lineTable_length pos k c
+  have hlt := lineTableV_length l (pos + bytes (compile pos k (erase c)) + 3) (k + (consts (erase c)).length) ctx thn
+  generalize hcce : compile pos k (erase c) = cc at *
+  generalize hcte : branchV (pos + bytes cc + 3) (k + (consts (erase c)).length) ctx (eraseP thn) = ct at *
+  generalize hcee : branchV (pos + bytes cc + 3 + bytes ct + 3) (k + (consts (erase c)).length + (constsP (eraseP thn)).length) ctx (eraseP els) = ce at *
+  have hcc : codeAt C pos cc := codeAt_left (codeAt_left (codeAt_left (codeAt_left h)))
+  cases hec : eval g (erase c) with
+  | none =>
+    simp only [hec] at hf
+    have := fail_line_all c C K pos k stk g L (hcce ▸ hcc) (poolAt_left (poolAt_left hp)) hf
+    rw [hcce] at this
+    exact (((this.left _ _).left _ _).left _ _).left _ _
+  | some r =>
+    obtain ⟨vc, g1⟩ := r
+    simp only [hec] at hf
+    have s1 := compile_correct (erase c) C K pos k stk g vc g1 (hcce ▸ hcc) (poolAt_left (poolAt_left hp)) hec
+    rw [hcce] at s1
+    have hj : codeAt C (pos + bytes cc) [Instr.jif (pos + bytes cc + 3 + bytes ct + 3)] :=
+      codeAt_mid cc [_] (ct ++ [.jump (pos + bytes cc + 3 + bytes ct + 3 + bytes ce)] ++ ce) (by simpa using h)
+    have s2 := s1.trans (Steps.one (step_jif (stk := stk) (g := g1) (v := vc) (K := K) hj))
+    by_cases hfal : vc.isFalsey = true
+    · simp only [hfal, if_true] at hf s2
+      have hee : codeAt C (pos + bytes cc + 3 + bytes ct + 3) ce := (codeAt_right h).to (by posarith)
+      have hpe : poolAt K (k + (consts (erase c)).length + (constsP (eraseP thn)).length) (constsP (eraseP els)) := by
+        have := poolAt_right hp
+        simpa [Nat.add_assoc] using this
+      have f2 := hV els l C K _ _ ctx stk g1 L (hcee ▸ hee) hpe hf
+      rw [hcee] at f2
+      refine FailsAt.right _ _ (by simp [hlc, hlt]) s2 ?_
+      have e : pos + bytes (cc ++ [Instr.jif (pos + bytes cc + 3 + bytes ct + 3)] ++ ct ++
+          [Instr.jump (pos + bytes cc + 3 + bytes ct + 3 + bytes ce)]) = pos + bytes cc + 3 + bytes ct + 3 := by posarith
+      rw [e]; exact f2
+    · simp only [hfal, Bool.false_eq_true, if_false] at hf s2
+      have htt : codeAt C (pos + bytes cc + 3) ct := (codeAt_right (codeAt_left (codeAt_left h))).to (by posarith)
+      have f2 := hV thn l C K _ _ ctx stk g1 L (hcte ▸ htt) (poolAt_right (poolAt_left hp)) hf
+      rw [hcte] at f2
+      refine ((FailsAt.right _ _ (by simp [hlc]) s2 ?_).left _ _).left _ _
+      have e : pos + bytes (cc ++ [Instr.jif (pos + bytes cc + 3 + bytes ct + 3)]) = pos + bytes cc + 3 := by posarith
+      rw [e]; exact f2
+
+theorem failV_succ (fuel : Nat) (hS : FailSpecS fuel) (hV : FailSpecV fuel) (hI : FailSpecIfV fuel) : FailSpecV (fuel + 1) := by
+  intro ss lif C K pos k ctx stk g L h hp hf
+  cases ss with
+  | nil => simp [failLineP] at hf
+  | cons s rest =>
+    simp only [failLineP] at hf
+    rw [eraseP_cons] at h hp ⊢
+    simp only [constsP] at hp
+    cases rest with
+    | cons s2 rest2 =>
+      rw [eraseP_cons, branchV_cons2] at h ⊢
+      rw [lineTableV_cons2]
+      rw [eraseP_cons] at hp
+      cases h1 : evalS fuel g (eraseS s) with
+      | none =>
+        simp only [h1] at hf
+        exact (hS s C K pos k ctx stk g L (codeAt_left h) (poolAt_left hp) hf).left _ _
+      | some r =>
+        obtain ⟨g1, f1⟩ := r
+        cases f1 with
+        | normal =>
+          simp only [h1] at hf
+          have s1 := compileS_correct fuel (eraseS s) C K pos k ctx stk g g1 .normal (codeAt_left h) (poolAt_left hp) h1
+          have f2 := hV (s2 :: rest2) lif C K _ _ ctx stk g1 L (by rw [eraseP_cons]; exact codeAt_right h)
+            (by rw [eraseP_cons]; exact poolAt_right hp) hf
+          rw [eraseP_cons] at f2
+          exact FailsAt.right _ _ (lineTableS_length pos k ctx s) s1 f2
+        | brk l => simp [h1] at hf
+        | cont l => simp [h1] at hf
+    | nil =>
+      have hnil : eraseP ([] : List LStmt) = [] := by rw [eraseP]
+      rw [hnil, branchV_single] at h ⊢
+      rw [lineTableV_single]
+      rw [hnil] at hp
+      simp only [constsP, List.append_nil] at hp
+      have hfs : failLineS fuel g s = some L := by
+        cases h1 : evalS fuel g (eraseS s) with
+        | none => simpa [h1] using hf
+        | some r =>
+          obtain ⟨g1, f1⟩ := r
+          cases f1 with
+          | normal =>
+            simp only [h1] at hf
+            cases fuel <;> simp [failLineP] at hf
+          | brk l => simp [h1] at hf
+          | cont l => simp [h1] at hf
+      rw [isExprStmt_eraseS]
+      cases s with
+      | expr ls e =>
+        have e1 : valueOf (LStmt.expr ls e).isExprStmt (compileS pos k ctx (eraseS (.expr ls e))) = compile pos k (erase e) := by
+          simp [valueOf, LStmt.isExprStmt, eraseS, compileS]
+        have e2 : valueLines (LStmt.expr ls e).isExprStmt lif (lineTableS (.expr ls e)) = lineTable e := by
+          simp [valueLines, LStmt.isExprStmt, lineTableS]
+        rw [isExprStmt_eraseS, e1] at h
+        rw [e1, e2]
+        cases fuel with
+        | zero => simp [failLineS] at hfs
+        | succ n =>
+          simp only [failLineS] at hfs
+          exact fail_line_all e C K pos k stk g L h (by simpa [eraseS, constsS] using hp) hfs
+      | ifS ls l c thn els =>
+        have e1 : valueOf (LStmt.ifS ls l c thn els).isExprStmt (compileS pos k ctx (eraseS (.ifS ls l c thn els))) =
+            ifV pos k ctx (erase c) (eraseP thn) (eraseP els) := by
+          simp [valueOf, LStmt.isExprStmt, eraseS, compileS_ifS]
+        have e2 : valueLines (LStmt.ifS ls l c thn els).isExprStmt lif (lineTableS (.ifS ls l c thn els)) = lineTableIfV l c thn els := by
+          have e3 : lineTableS (.ifS ls l c thn els) = lineTableIfV l c thn els ++ [ls] := by
+            simp [lineTableS, lineTableIfV]
+          simp only [valueLines, LStmt.isExprStmt, if_true, e3, List.dropLast_concat]
+        rw [isExprStmt_eraseS, e1] at h
+        rw [e1, e2]
+        exact hI ls l c thn els C K pos k ctx stk g L h (by simpa [eraseS, constsS] using hp) hfs
+      | letG l i e =>
+        rw [isExprStmt_eraseS] at h
+        simp only [valueOf, valueLines, LStmt.isExprStmt, Bool.false_eq_true, if_false] at h ⊢
+        exact (hS _ C K pos k ctx stk g L (codeAt_left h) hp hfs).left _ _
+      | block l b =>
+        rw [isExprStmt_eraseS] at h
+        simp only [valueOf, valueLines, LStmt.isExprStmt, Bool.false_eq_true, if_false] at h ⊢
+        exact (hS _ C K pos k ctx stk g L (codeAt_left h) hp hfs).left _ _
+      | whileS l lbl c b =>
+        rw [isExprStmt_eraseS] at h
+        simp only [valueOf, valueLines, LStmt.isExprStmt, Bool.false_eq_true, if_false] at h ⊢
+        exact (hS _ C K pos k ctx stk g L (codeAt_left h) hp hfs).left _ _
+      | loopS l lbl b =>
+        rw [isExprStmt_eraseS] at h
+        simp only [valueOf, valueLines, LStmt.isExprStmt, Bool.false_eq_true, if_false] at h ⊢
+        exact (hS _ C K pos k ctx stk g L (codeAt_left h) hp hfs).left _ _
+      | breakS l lbl => cases fuel <;> simp [failLineS] at hfs
+      | continueS l lbl => cases fuel <;> simp [failLineS] at hfs
+
+theorem failS_succ (fuel : Nat) (hS : FailSpecS fuel) (hP : FailSpecP fuel) (hI : FailSpecIfV (fuel + 1)) : FailSpecS (fuel + 1) := by
+  intro s C K pos k ctx stk g L h hp hf
   cases s with
   | letG l i e =>
     simp only [failLineS] at hf
@@ -608,8 +761,53 @@ theorem failS_succ (fuel : Nat) (hS : FailSpecS fuel) (hP : FailSpecP fuel) : Fa
     simp only [failLineS] at hf
     simp only [eraseS, compileS, lineTableS] at h ⊢
     simp only [eraseS, constsS] at hp
-    exact hP body C K pos k stk g L h hp hf
-  | whileS l c body =>
+    exact hP body C K pos k ctx stk g L h hp hf
+  | breakS l lbl => simp [failLineS] at hf
+  | continueS l lbl => simp [failLineS] at hf
+  | ifS ls l c thn els =>
+    have e1 : compileS pos k ctx (eraseS (.ifS ls l c thn els)) = ifV pos k ctx (erase c) (eraseP thn) (eraseP els) ++ [.pop] := by
+      simp [eraseS, compileS_ifS]
+    have e2 : lineTableS (.ifS ls l c thn els) = lineTableIfV l c thn els ++ [ls] := by
+      simp [lineTableS, lineTableIfV]
+    rw [e1] at h ⊢
+    rw [e2]
+    exact (hI ls l c thn els C K pos k ctx stk g L (codeAt_left h) (by simpa [eraseS, constsS] using hp) hf).left _ _
+  | loopS l lbl body =>
+    have hloop := h
+    have hploop := hp
+    simp only [failLineS] at hf
+    simp only [eraseS, compileS, lineTableS] at h ⊢
+    simp only [eraseS, constsS] at hp
+    generalize hme : (⟨lbl, pos, pos + sizeP (eraseP body) + 3⟩ : LoopCtx) = me at *
+    have hml : me.label = lbl := by rw [← hme]
+    have hmb : me.begin = pos := by rw [← hme]
+    generalize hcbe : compileP pos k (me :: ctx) (eraseP body) = cb at *
+    have hbody : codeAt C pos cb := codeAt_left h
+    cases hb : evalP fuel g (eraseP body) with
+    | none =>
+      simp only [hb] at hf
+      have f2 := hP body C K pos k (me :: ctx) stk g L (hcbe ▸ hbody) hp hf
+      rw [hcbe] at f2
+      exact f2.left _ _
+    | some r =>
+      obtain ⟨g2, f2⟩ := r
+      simp only [hb] at hf
+      cases ha : loopAct lbl f2 with
+      | again =>
+        simp only [ha] at hf
+        have hback : codeAt C (pos + bytes cb) [Instr.jump pos] := codeAt_right h
+        have s3 := compileP_correct fuel (eraseP body) C K pos k (me :: ctx) stk g g2 f2 (hcbe ▸ hbody) hp hb
+        rw [hcbe] at s3
+        have s4 : Steps C K ⟨pos, stk, g⟩ ⟨pos, stk, g2⟩ := by
+          rcases exitPc_again (ctx := ctx) (e := pos + bytes cb) (hml ▸ ha) with e | e
+          · exact (s3.to (by rw [e])).trans (Steps.one (step_jump hback))
+          · exact s3.to (by rw [e, hmb])
+        have f := hS (.loopS l lbl body) C K pos k ctx stk g2 L hloop hploop hf
+        simp only [eraseS, compileS, lineTableS, hme, hcbe] at f
+        exact f.prefix s4
+      | exit => simp [ha] at hf
+      | propagate => simp [ha] at hf
+  | whileS l lbl c body =>
     have hloop := h
     have hploop := hp
     simp only [failLineS] at hf
@@ -617,7 +815,10 @@ theorem failS_succ (fuel : Nat) (hS : FailSpecS fuel) (hP : FailSpecP fuel) : Fa
     simp only [eraseS, constsS] at hp
     have hlc := lineTable_length pos k c
     generalize hcce : compile pos k (erase c) = cc at *
-    generalize hcbe : compileP (pos + bytes cc + 3) (k + (consts (erase c)).length) (eraseP body) = cb at *
+    generalize hme : (⟨lbl, pos, pos + bytes cc + 3 + sizeP (eraseP body) + 3⟩ : LoopCtx) = me at *
+    have hml : me.label = lbl := by rw [← hme]
+    have hmb : me.begin = pos := by rw [← hme]
+    generalize hcbe : compileP (pos + bytes cc + 3) (k + (consts (erase c)).length) (me :: ctx) (eraseP body) = cb at *
     have hcc : codeAt C pos cc := codeAt_left (codeAt_left (codeAt_left h))
     cases hec : eval g (erase c) with
     | none =>
@@ -630,53 +831,62 @@ theorem failS_succ (fuel : Nat) (hS : FailSpecS fuel) (hP : FailSpecP fuel) : Fa
       simp only [hec] at hf
       have s1 := compile_correct (erase c) C K pos k stk g vc g1 (hcce ▸ hcc) (poolAt_left hp) hec
       rw [hcce] at s1
-      have hj : codeAt C (pos + bytes cc) [Instr.jif (pos + bytes cc + 3 + bytes cb + 3)] :=
+      have hj : codeAt C (pos + bytes cc) [Instr.jif (pos + bytes cc + 3 + sizeP (eraseP body) + 3)] :=
         codeAt_mid cc [_] (cb ++ [.jump pos]) (by simpa using h)
       have s2 := s1.trans (Steps.one (step_jif (stk := stk) (g := g1) (v := vc) (K := K) hj))
       by_cases hfal : vc.isFalsey = true
       · simp [hfal] at hf
       · simp only [hfal, Bool.false_eq_true, if_false] at hf s2
-        have hbody : codeAt C (pos + bytes cc + 3) cb := by
-          have := codeAt_right (codeAt_left h)
-          simpa [bytes_append, bytes, Instr.size, Nat.add_assoc] using this
+        have hbody : codeAt C (pos + bytes cc + 3) cb := (codeAt_right (codeAt_left h)).to (by posarith)
         cases hb : evalP fuel g1 (eraseP body) with
         | none =>
           simp only [hb] at hf
-          have f2 := hP body C K _ _ stk g1 L (hcbe ▸ hbody) (poolAt_right hp) hf
+          have f2 := hP body C K _ _ (me :: ctx) stk g1 L (hcbe ▸ hbody) (poolAt_right hp) hf
           rw [hcbe] at f2
           refine (FailsAt.right _ _ (by simp [hlc]) s2 ?_).left _ _
-          have e : pos + bytes (cc ++ [Instr.jif (pos + bytes cc + 3 + bytes cb + 3)]) = pos + bytes cc + 3 := by
-            simp [bytes_append, bytes, Instr.size]; omega
+          have e : pos + bytes (cc ++ [Instr.jif (pos + bytes cc + 3 + sizeP (eraseP body) + 3)]) = pos + bytes cc + 3 := by posarith
           rw [e]; exact f2
-        | some g2 =>
+        | some r2 =>
+          obtain ⟨g2, f2⟩ := r2
           simp only [hb] at hf
-          have hback : codeAt C (pos + bytes cc + 3 + bytes cb) [Instr.jump pos] := by
-            have := codeAt_right h
-            simpa [bytes_append, bytes, Instr.size, Nat.add_assoc] using this
-          have s3 := compileP_correct fuel (eraseP body) C K _ _ stk g1 g2 (hcbe ▸ hbody) (poolAt_right hp) hb
-          rw [hcbe] at s3
-          have s4 := (s2.trans s3).trans (Steps.one (step_jump (stk := stk) (g := g2) (K := K) hback))
-          -- the next iteration: the same loop, from the globals the body left
-          have f := hS (.whileS l c body) C K pos k stk g2 L hloop hploop hf
-          simp only [eraseS, compileS, lineTableS, hcce, hcbe] at f
-          exact f.prefix s4
+          cases ha : loopAct lbl f2 with
+          | again =>
+            simp only [ha] at hf
+            have hback : codeAt C (pos + bytes cc + 3 + bytes cb) [Instr.jump pos] := (codeAt_right h).to (by posarith)
+            have s3 := compileP_correct fuel (eraseP body) C K _ _ (me :: ctx) stk g1 g2 f2 (hcbe ▸ hbody) (poolAt_right hp) hb
+            rw [hcbe] at s3
+            have s4 : Steps C K ⟨pos, stk, g⟩ ⟨pos, stk, g2⟩ := by
+              rcases exitPc_again (ctx := ctx) (e := pos + bytes cc + 3 + bytes cb) (hml ▸ ha) with e | e
+              · exact (s2.trans (s3.to (by rw [e]))).trans (Steps.one (step_jump hback))
+              · exact s2.trans (s3.to (by rw [e, hmb]))
+            -- the next iteration: the same loop, from the globals the body left
+            have f := hS (.whileS l lbl c body) C K pos k ctx stk g2 L hloop hploop hf
+            simp only [eraseS, compileS, lineTableS, hcce, hme, hcbe] at f
+            exact f.prefix s4
+          | exit => simp [ha] at hf
+          | propagate => simp [ha] at hf
 
-theorem fail_all : ∀ fuel, FailSpecS fuel ∧ FailSpecP fuel
-  | 0 => ⟨fun s C K pos k stk g L _ _ hf => by simp [failLineS] at hf,
-          fun ss C K pos k stk g L _ _ hf => by simp [failLineP] at hf⟩
+theorem fail_all : ∀ fuel, FailSpecS fuel ∧ FailSpecP fuel ∧ FailSpecV fuel ∧ FailSpecIfV fuel
+  | 0 => ⟨fun s C K pos k ctx stk g L _ _ hf => by simp [failLineS] at hf,
+          fun ss C K pos k ctx stk g L _ _ hf => by simp [failLineP] at hf,
+          fun ss lif C K pos k ctx stk g L _ _ hf => by simp [failLineP] at hf,
+          fun ls l c thn els C K pos k ctx stk g L _ _ hf => by simp [failLineS] at hf⟩
   | fuel+1 =>
     have ih := fail_all fuel
-    ⟨failS_succ fuel ih.1 ih.2, failP_succ fuel ih.1 ih.2⟩
+    have hI := failIfV_succ fuel ih.2.2.1
+    ⟨failS_succ fuel ih.1 ih.2.1 hI, failP_succ fuel ih.1 ih.2.1, failV_succ fuel ih.1 ih.2.2.1 ih.2.2.2, hI⟩
 
-/-- **C13, statements**: `let`, expression statement, block, `while` loop (a failure in the
-n-th iteration is reached after n-1 complete iterations), placed anywhere -/
-theorem fail_line_stmts (fuel : Nat) (ss : List LStmt) (C : List Instr) (K : List Val) (pos k : Nat) (stk g : List Val) (L : Nat)
-    (h : codeAt C pos (compileP pos k (eraseP ss))) (hp : poolAt K k (constsP (eraseP ss)))
+/-- **C13, statements**: `let`, expression statement, block, `while` / `loop` (a failure in the
+n-th iteration is reached after n-1 complete iterations, whether they ended normally or by
+`continue`), statement-level `if`, placed anywhere, under any loop stack -/
+theorem fail_line_stmts (fuel : Nat) (ss : List LStmt) (C : List Instr) (K : List Val) (pos k : Nat) (ctx : List LoopCtx)
+    (stk g : List Val) (L : Nat)
+    (h : codeAt C pos (compileP pos k ctx (eraseP ss))) (hp : poolAt K k (constsP (eraseP ss)))
     (hf : failLineP fuel g ss = some L) :
     ∃ st off, Steps C K ⟨pos, stk, g⟩ st ∧ step C K st = none ∧ st.pc = pos + off ∧
-      off < bytes (compileP pos k (eraseP ss)) ∧ (fetch (compileP pos k (eraseP ss)) off).isSome = true ∧
-      lineAt (compileP pos k (eraseP ss)) (lineTableP ss) off = some L := by
-  obtain ⟨st, off, h1, h2, h3, h4⟩ := (fail_all fuel).2 ss C K pos k stk g L h hp hf
+      off < bytes (compileP pos k ctx (eraseP ss)) ∧ (fetch (compileP pos k ctx (eraseP ss)) off).isSome = true ∧
+      lineAt (compileP pos k ctx (eraseP ss)) (lineTableP ss) off = some L := by
+  obtain ⟨st, off, h1, h2, h3, h4⟩ := (fail_all fuel).2.1 ss C K pos k ctx stk g L h hp hf
   exact ⟨st, off, h1, h2, h3, (lineAt_lt h4).1, (lineAt_lt h4).2, h4⟩
 
 /-- the machine is deterministic: the state in which a run gets stuck is unique -/
@@ -697,10 +907,10 @@ If the reference evaluation fails by an operation on line `L`, the machine gets 
 line the VM reads for the error — `lines[ip]` of the per-byte line table — is `L`. -/
 theorem fail_line_program (fuel : Nat) (ss : List LStmt) (g : List Val) (L : Nat)
     (hf : failLineP fuel g ss = some L) :
-    ∃ st, Steps (compileP 0 0 (eraseP ss)) (constsP (eraseP ss)) ⟨0, [], g⟩ st ∧
-      step (compileP 0 0 (eraseP ss)) (constsP (eraseP ss)) st = none ∧
-      (byteLines (compileP 0 0 (eraseP ss)) (lineTableP ss))[st.pc]? = some L := by
-  obtain ⟨st, off, h1, h2, h3, h4⟩ := (fail_all fuel).2 ss (compileP 0 0 (eraseP ss)) (constsP (eraseP ss)) 0 0 [] g L
+    ∃ st, Steps (compileP 0 0 [] (eraseP ss)) (constsP (eraseP ss)) ⟨0, [], g⟩ st ∧
+      step (compileP 0 0 [] (eraseP ss)) (constsP (eraseP ss)) st = none ∧
+      (byteLines (compileP 0 0 [] (eraseP ss)) (lineTableP ss))[st.pc]? = some L := by
+  obtain ⟨st, off, h1, h2, h3, h4⟩ := (fail_all fuel).2.1 ss (compileP 0 0 [] (eraseP ss)) (constsP (eraseP ss)) 0 0 [] [] g L
     ⟨[], [], by simp, rfl⟩ ⟨[], [], by simp, rfl⟩ hf
   refine ⟨st, h1, h2, ?_⟩
   have : st.pc = off := by omega
@@ -711,8 +921,8 @@ theorem fail_line_program (fuel : Nat) (ss : List LStmt) (g : List Val) (L : Nat
 executable machine (`runMachineL`, the model side of the `core` op) is `L` -/
 theorem run_reports_failLine (fuel n : Nat) (ss : List LStmt) (g : List Val) (L : Nat) (st : St)
     (hf : failLineP fuel g ss = some L)
-    (hr : runMachineL (compileP 0 0 (eraseP ss)) (constsP (eraseP ss)) n ⟨0, [], g⟩ = .stuck st) :
-    (byteLines (compileP 0 0 (eraseP ss)) (lineTableP ss))[st.pc]? = some L := by
+    (hr : runMachineL (compileP 0 0 [] (eraseP ss)) (constsP (eraseP ss)) n ⟨0, [], g⟩ = .stuck st) :
+    (byteLines (compileP 0 0 [] (eraseP ss)) (lineTableP ss))[st.pc]? = some L := by
   obtain ⟨st', h1, h2, h3⟩ := fail_line_program fuel ss g L hf
   obtain ⟨r1, r2⟩ := runMachineL_stuck n _ _ hr
   rw [stuck_unique r1 r2 h1 h2]
@@ -750,20 +960,20 @@ while i < 5 {
 ``` fails on line 4, in the third iteration -/
 def ex4 : List LStmt :=
   [.letG 1 0 (.lit 1 (.int 0)),
-   .whileS 2 (.lt 2 (.gget 2 0) (.lit 2 (.int 5)))
+   .whileS 2 none (.lt 2 (.gget 2 0) (.lit 2 (.int 5)))
      [.expr 3 (.gset 3 0 (.bin 3 .add (.gget 3 0) (.lit 3 (.int 1)))),
       .expr 4 (.bin 4 .div (.lit 4 (.int 10)) (.bin 4 .sub (.lit 4 (.int 3)) (.gget 4 0)))]]
 example : failLineP 30 [.null] ex4 = some 4 := by rfl
 /-- two complete iterations precede the failure: with the globals after two iterations the
 loop still fails, with those after three it would not even be entered … -/
 example : evalP 30 [.int 2] (eraseP [ex4[1]]) = none ∧ failLineP 30 [.int 2] [ex4[1]] = some 4 := ⟨by rfl, by rfl⟩
-example : ∃ st, Steps (compileP 0 0 (eraseP ex4)) (constsP (eraseP ex4)) ⟨0, [], [.null]⟩ st ∧
-    step (compileP 0 0 (eraseP ex4)) (constsP (eraseP ex4)) st = none ∧
-    (byteLines (compileP 0 0 (eraseP ex4)) (lineTableP ex4))[st.pc]? = some 4 :=
+example : ∃ st, Steps (compileP 0 0 [] (eraseP ex4)) (constsP (eraseP ex4)) ⟨0, [], [.null]⟩ st ∧
+    step (compileP 0 0 [] (eraseP ex4)) (constsP (eraseP ex4)) st = none ∧
+    (byteLines (compileP 0 0 [] (eraseP ex4)) (lineTableP ex4))[st.pc]? = some 4 :=
   fail_line_program 30 ex4 [.null] 4 (by rfl)
 /-- the executable machine agrees: it is stuck at byte 37 (the `Div`), whose line is 4 -/
-example : (match runMachineL (compileP 0 0 (eraseP ex4)) (constsP (eraseP ex4)) 200 ⟨0, [], [.null]⟩ with
-    | .stuck st => some (st.pc, (byteLines (compileP 0 0 (eraseP ex4)) (lineTableP ex4))[st.pc]?)
+example : (match runMachineL (compileP 0 0 [] (eraseP ex4)) (constsP (eraseP ex4)) 200 ⟨0, [], [.null]⟩ with
+    | .stuck st => some (st.pc, (byteLines (compileP 0 0 [] (eraseP ex4)) (lineTableP ex4))[st.pc]?)
     | _ => none) = some (37, some 4) := by rfl
 
 end P2sh.Props.C13
